@@ -43,6 +43,8 @@ Inductive ev :=
 | ELost                   (* every client handle is dropped: the listener is lost *)
 | EMakeFail               (* the make-service will fail for the next connection *)
 | ESignal                 (* the shutdown signal resolves *)
+| EMakeSignal (n : nat)   (* arm: the make-service resolves the shutdown signal while it admits the
+                             (n+1)-th connection from now (the signal resolves INSIDE the accept loop) *)
 | ESettle                 (* the server future and every driver run until nothing is ready *)
 | EPartial (c : nat)      (* client c begins a request but only 10 bytes of the head get out *)
 | EReq (c : nat)          (* client c sends a complete head (or completes the cut one) *)
@@ -109,28 +111,31 @@ Record state := mkSt {
   s_fired : bool;
   s_lost : bool;
   s_armed : bool;
+  s_sigarm : option nat;  (* the make-service will resolve the signal: connections still to admit before *)
   s_queue : list qent;
   s_conns : list conn;
   s_out : list oev
 }.
 
-Definition init : state := mkSt SPreparing false false false [] [] [].
+Definition init : state := mkSt SPreparing false false false None [] [] [].
 
 (* ---- setters *)
 Definition emit (o : oev) (s : state) : state :=
-  mkSt (s_srv s) (s_fired s) (s_lost s) (s_armed s) (s_queue s) (s_conns s) (o :: s_out s).
+  mkSt (s_srv s) (s_fired s) (s_lost s) (s_armed s) (s_sigarm s) (s_queue s) (s_conns s) (o :: s_out s).
 Definition set_srv (v : sstate) (s : state) : state :=
-  mkSt v (s_fired s) (s_lost s) (s_armed s) (s_queue s) (s_conns s) (s_out s).
+  mkSt v (s_fired s) (s_lost s) (s_armed s) (s_sigarm s) (s_queue s) (s_conns s) (s_out s).
 Definition set_fired (v : bool) (s : state) : state :=
-  mkSt (s_srv s) v (s_lost s) (s_armed s) (s_queue s) (s_conns s) (s_out s).
+  mkSt (s_srv s) v (s_lost s) (s_armed s) (s_sigarm s) (s_queue s) (s_conns s) (s_out s).
 Definition set_lost (v : bool) (s : state) : state :=
-  mkSt (s_srv s) (s_fired s) v (s_armed s) (s_queue s) (s_conns s) (s_out s).
+  mkSt (s_srv s) (s_fired s) v (s_armed s) (s_sigarm s) (s_queue s) (s_conns s) (s_out s).
 Definition set_armed (v : bool) (s : state) : state :=
-  mkSt (s_srv s) (s_fired s) (s_lost s) v (s_queue s) (s_conns s) (s_out s).
+  mkSt (s_srv s) (s_fired s) (s_lost s) v (s_sigarm s) (s_queue s) (s_conns s) (s_out s).
+Definition set_sigarm (v : option nat) (s : state) : state :=
+  mkSt (s_srv s) (s_fired s) (s_lost s) (s_armed s) v (s_queue s) (s_conns s) (s_out s).
 Definition set_queue (v : list qent) (s : state) : state :=
-  mkSt (s_srv s) (s_fired s) (s_lost s) (s_armed s) v (s_conns s) (s_out s).
+  mkSt (s_srv s) (s_fired s) (s_lost s) (s_armed s) (s_sigarm s) v (s_conns s) (s_out s).
 Definition set_conns (v : list conn) (s : state) : state :=
-  mkSt (s_srv s) (s_fired s) (s_lost s) (s_armed s) (s_queue s) v (s_out s).
+  mkSt (s_srv s) (s_fired s) (s_lost s) (s_armed s) (s_sigarm s) (s_queue s) v (s_out s).
 
 Fixpoint upd {A} (n : nat) (f : A -> A) (l : list A) : list A :=
   match l, n with
@@ -223,8 +228,23 @@ Definition initial_phase (g : cfg) (k : kind) : phase :=
 
 Definition spawn_ph (g : cfg) (x : conn) : conn := w_ph (initial_phase g (c_kind x)) x.
 
-(* poll_once iterated by the greedy loop, state Accepting, over the requests queued so far *)
+(* the make-service future of the connection being admitted resolves the shutdown signal (armed by
+   EMakeSignal).  The accept loop cannot look at the signal between Making and the spawn of that
+   connection, so the model places OSignal after its OSpawn; the implementation's log has it
+   between OAccept and OSpawn, which mon_C07 accepts (that connection was accepted before). *)
+Definition make_signal (g : cfg) (s : state) : state :=
+  match s_sigarm s with
+  | Some O => let s1 := set_sigarm None s in
+              if g_graceful g && negb (s_fired s1) then emit OSignal (set_fired true s1) else s1
+  | Some (S k) => set_sigarm (Some k) s
+  | None => s
+  end.
+
+(* poll_once iterated by the greedy loop, state Accepting, over the requests queued so far;
+   GracefulShutdown::poll polls the signal at the top of EVERY iteration *)
 Fixpoint accept_loop (g : cfg) (q : list qent) (s : state) : state :=
+  if g_graceful g && s_fired s then finish true (set_queue q s)   (* signal first: Ready (Ok ()), the rest stays queued *)
+  else
   match q with
   | [] =>
       if s_lost s then finish false (emit OAcceptErr (set_queue [] s))          (* recv = None *)
@@ -238,7 +258,8 @@ Fixpoint accept_loop (g : cfg) (q : list qent) (s : state) : state :=
               let s1 := emit (OAccept c) s in              (* Ok io -> Making *)
               if s_armed s1
               then finish false (set_queue q' (set_armed false (modc c (w_ph Dropped) s1)))   (* Err MakeService *)
-              else accept_loop g q' (emit (OSpawn c) (modc c (spawn_ph g) s1))   (* Some conn: spawn; Preparing -> Accepting *)
+              else accept_loop g q'                        (* Some conn: spawn; Preparing -> Accepting *)
+                     (make_signal g (emit (OSpawn c) (modc c (spawn_ph g) s1)))
           | _ => accept_loop g q' s
           end
       | None => accept_loop g q' s
@@ -372,6 +393,7 @@ Definition step (g : cfg) (s : state) (e : ev) : state :=
   | ELost => if s_lost s then s else emit OLost (set_lost true s)
   | EMakeFail => emit OMakeArm (set_armed true s)
   | ESignal => if g_graceful g && negb (s_fired s) then emit OSignal (set_fired true s) else s
+  | EMakeSignal n => if g_graceful g then set_sigarm (Some n) s else s
   | ESettle => emit OQuiet (settle g s)
   | EPartial c => emit OQuiet (act_partial g c (settle g s))
   | EReq c => emit OQuiet (act_req g c (settle g s))
